@@ -1,4 +1,4 @@
-import Qats.Lemmas.DistMain
+import Qats.Lemmas.W2GMain
 /-!
 # C17 — the extreme-value chain from peaks to quantiles is coherent
 
